@@ -46,7 +46,7 @@ Step(e) ==
             /\ HasRows(e.args[1])
             /\ IF e.args[2] THEN TakeSeqsNegT({RowIdx(e.args[1][k]) : k \in 1..Len(e.args[1])})
                ELSE TakeSeqsT([k \in 1..Len(e.args[1]) |-> RowIdx(e.args[1][k])])
-      [] e.op = "OmitGapPos" -> OmitGapPosT(<<e.args[1], e.args[2]>>, e.args[3])
+      [] e.op = "OmitGapPos" -> OmitGapPosT(<<e.args[1], e.args[2], e.args[3]>>, e.args[4])
       [] e.op = "NoDegenerates" -> NoDegeneratesT(e.args[1], e.args[2])
       [] e.op = "Filtered" -> FilteredPT(e.args[1], e.args[2])
       [] e.op = "DegapRel" -> HasRows(<<e.args[1]>>) /\ DegapRelT(RowIdx(e.args[1]))
